@@ -11,17 +11,6 @@ Tr == ndJsonDeserialize(IOEnv.TRACE_FILE)
 
 VARIABLES l, queue, ids, clean
 
-Concat(q) == FoldLeft(LAMBDA acc, c : acc \o c, <<>>, q)
-
-RECURSIVE Scan(_, _, _, _)
-Scan(b, i, out, idset) ==
-  IF i + 5 > Len(b) THEN [out |-> out, rest |-> SubSeq(b, i, Len(b))]
-  ELSE IF SpId13(b, i) \in idset
-       THEN LET n == b[i + 4] * 256 + b[i + 5] + 7
-            IN IF i + n - 1 > Len(b) THEN [out |-> out, rest |-> SubSeq(b, i, Len(b))]
-               ELSE Scan(b, i + n, Append(out, SubSeq(b, i, i + n - 1)), idset)
-       ELSE Scan(b, i + 1, out, idset)
-
 Bad(e, why) == PrintT("BAD " \o ToString(e.id) \o " " \o why)
 
 TraceInit == l = 1 /\ queue = <<>> /\ ids = {} /\ clean = FALSE
